@@ -171,6 +171,11 @@ func descriptorFromResponse(resp *http.Response, knownDigest digest.Digest, requ
 			return ociregistry.Descriptor{}, fmt.Errorf("bad digest %q found in response", digest)
 		}
 	} else {
+		if knownDigest != "" && !ociref.IsValidDigest(string(knownDigest)) {
+			// The request URL was checked in its decoded form only,
+			// and the readers assume a well formed digest.
+			return ociregistry.Descriptor{}, fmt.Errorf("bad digest %q", knownDigest)
+		}
 		digest = knownDigest
 	}
 	if (require&requireDigest) != 0 && digest == "" {
